@@ -19,6 +19,8 @@ def run(repo, res, tier):
     effects.rule_e5(repo, res)
     from .. import hookrules
     hookrules.rule_hook_tail(repo, res)
+    from .. import langrules
+    langrules.rule_kw_excl(repo, res, langrules.analyse(repo))
     effects.rule_estate(repo, res, families=("PVLParser",), floor=2)
     an = parserules.analyse(repo)
     t4 = parserules.add_rule(res, an, "T4")
